@@ -71,6 +71,8 @@ type c16Opts struct {
 	Sizes []int64 // when set, sizes are drawn only from this list
 	OrderlyOnly bool
 	Watchdog   time.Duration // per-tunnel client deadline (default 60 s clean / 6 s collision-prone)
+	ChunkWhole bool // client writes each direction with a single Write call
+	TapHook    func(tap *mkTap) // called right after the frame tap is installed
 	SkipDataOracle bool // C17 judges bookkeeping only (faults legitimately cut tunnels short)
 }
 
@@ -179,6 +181,9 @@ func c16Plans(rng *verifkit.Rand, tp c16Topo, dest *mkDest, n int, maxBytes int6
 		if p.Chunk < 512 && p.C2S > 20000 {
 			p.Chunk = 4096 // keep tiny-chunk tunnels short
 		}
+		if opts.ChunkWhole && p.C2S > 0 {
+			p.Chunk = int(p.C2S)
+		}
 		plans = append(plans, p)
 	}
 	return plans
@@ -242,6 +247,9 @@ func c16RunScenario(t testing.TB, r *verifkit.R, phase string, ci int, rng *veri
 		return nil, nil, nil, nil, nil
 	}
 	tap := mkInstallTap()
+	if opts.TapHook != nil {
+		opts.TapHook(tap)
+	}
 	m, err := c16BuildMesh(t, tp, dest, opts.Idle)
 	if err != nil {
 		tap.close()
